@@ -45,7 +45,7 @@ Cased(c) == Orbit(c) # {c}
 InRanges(c, rs) == \E k \in 1..(Len(rs) \div 2) : rs[2 * k - 1] <= c /\ c <= rs[2 * k]
 \* a class is its list of ranges, as in Go's tree: case folding has already been expanded into
 \* the ranges by whoever built the node (the parser; Gen_c11!Cls), the flag adds nothing
-InClass(c, n) == InRanges(c, n.rune)
+InClass(c, n) == InRanges(c, Runes(n))
 RuneEq(c, r, fold) == IF fold THEN c \in Orbit(r) ELSE c = r
 
 IsWord(c) == (c >= 48 /\ c <= 57) \/ (c >= 65 /\ c <= 90) \/ (c >= 97 /\ c <= 122) \/ c = 95
@@ -71,7 +71,7 @@ MatchAt(re, w, i) ==
   LET n == Len(w) op == re.op IN
   CASE op = "Concat"       -> CatFrom(re.sub, 1, w, {i})
     [] op = "Literal" ->
-         LET r == re.rune m == Len(r) fold == Flag(re, "FoldCase") IN
+         LET r == Runes(re) m == Len(r) fold == Flag(re, "FoldCase") IN
          IF i + m <= n /\ \A k \in 1..m : RuneEq(w[i + k], r[k], fold) THEN {i + m} ELSE {}
     [] op = "BeginText"    -> IF i = 0 THEN {i} ELSE {}
     [] op = "EndText"      -> IF i = n THEN {i} ELSE {}
@@ -112,9 +112,9 @@ AnyNode(re, ops) == LET ns == NodeSeq(re) IN \E k \in 1..Len(ns) : ns[k].op \in 
 \* case folding: the fold-case flag is in force on a literal or class that contains a cased letter
 CasedPoints == (65..90) \cup (97..122) \cup {383, 8490}
 NodeFolds(n) == /\ n.op \in {"Literal", "CharClass"} /\ Flag(n, "FoldCase")
-                /\ IF n.op = "Literal" THEN \E k \in 1..Len(n.rune) : Cased(n.rune[k])
-                   ELSE \E k \in 1..(Len(n.rune) \div 2) :
-                          \E c \in CasedPoints : n.rune[2 * k - 1] <= c /\ c <= n.rune[2 * k]
+                /\ IF n.op = "Literal" THEN \E k \in 1..Len(Runes(n)) : Cased(Runes(n)[k])
+                   ELSE \E k \in 1..(Len(Runes(n)) \div 2) :
+                          \E c \in CasedPoints : Runes(n)[2 * k - 1] <= c /\ c <= Runes(n)[2 * k]
 HasCaseFolding(re) == LET ns == NodeSeq(re) IN \E k \in 1..Len(ns) : NodeFolds(ns[k])
 HasLineAnchor(re)  == AnyNode(re, {"BeginLine", "EndLine"})
 IsOpen(n) == n.op \in {"Star", "Plus"} \/ (n.op = "Repeat" /\ n.max = -1)
